@@ -22,8 +22,9 @@ NOT_APPLICABLE = {}
 
 def main():
     checks = []
+    ready = set(open(os.path.join(HERE, 'manifest.d', 'READY')).read().split())
     for pid in sorted(CHECKS):
-        if not os.path.exists(os.path.join(HERE, 'props', pid.lower() + '.py')):
+        if not os.path.exists(os.path.join(HERE, 'props', pid.lower() + '.py')) or pid not in ready:
             continue
         c = CHECKS[pid]
         checks.append({
